@@ -298,11 +298,80 @@ def run_noncausal(case):
              "ValueError", got)
 
 
+# ------------------------------------------------- coefficient number types
+# Coefficients are pasted into generated source text: every number type must survive that
+# (precedence of a complex literal, digits of a large int, a Fraction's slash, a negative value).
+COEF_TYPES = OrderedDict([
+  ("complex", [1 + 2j, 2 - 1j, 3j, -1 - 1j]),
+  ("bigint", [2 ** 53 + 1, -(2 ** 60 + 3), 2 ** 64]),
+  ("fraction", [F(1, 3), F(-7, 5), F(10 ** 17 + 1, 3)]),
+  ("negint", [-2, -1, -17]),
+  ("float", [0.1, -2.5, 1e-3, 1e22]),
+  ("bool", [True]),
+])
+CT_SHAPES = ["fir2", "fir-gap", "fir-single-delay", "iir-a1", "iir-a2", "a0"]
+CT_X = [3, -1, 4, 1, -5, 9, 2, -6, 5, 3, 5, -9]
+
+
+def gen_coef_types(run):
+  for tname, vals in COEF_TYPES.items():
+    for i in range(len(vals)):
+      for shape in CT_SHAPES:
+        for ctor in ("dict", "zexpr"):
+          for zk in ("int0", "int7"):
+            yield (tname, i, shape, ctor, zk)
+
+
+def run_coef_types(case):
+  tname, i, shape, ctor, zk = case
+  vals = COEF_TYPES[tname]
+  c, d = vals[i], vals[(i + 1) % len(vals)]
+  if shape == "fir2": b, a = {0: c, 1: d}, {0: 1}
+  elif shape == "fir-gap": b, a = {0: d, 3: c}, {0: 1}
+  elif shape == "fir-single-delay": b, a = {2: c}, {0: 1}
+  elif shape == "iir-a1": b, a = {0: 1}, {0: 1, 1: c}
+  elif shape == "iir-a2": b, a = {0: d, 1: 1}, {0: 1, 2: c}
+  else:
+    if tname in ("complex", "bigint", "float"):
+      return R(None, False, "a0 needs exact division")     # y / a0 is not exact for these types
+    b, a = {0: 1, 1: d}, {0: c, 1: 1}
+  zero = 0 if zk == "int0" else 7
+  x = list(CT_X)
+  # reference: the recurrence in Python's own arithmetic on the same number types
+  y = []
+  for n in range(len(x)):
+    acc = 0
+    for k, cf in b.items():
+      acc = acc + cf * (x[n - k] if n - k >= 0 else zero)
+    for k, cf in a.items():
+      if k >= 1:
+        acc = acc - cf * (y[n - k] if n - k >= 0 else zero)
+    y.append(acc / a[0] if a[0] != 1 else acc)
+  try:
+    if ctor == "dict":
+      filt = ZFilter(dict(b), dict(a))
+    else:
+      filt = sum((cf * z ** -k for k, cf in b.items()), 0 * z) / sum((cf * z ** -k for k, cf in a.items()), 0 * z)
+    got = list(filt(list(x), zero=zero))
+  except Exception as exc:
+    return bad("filter:exception:" + type(exc).__name__, "filter with %s coefficients raised" % tname,
+               None, {"exc": type(exc).__name__, "msg": str(exc)[:200]}, True)
+  # a Fraction is pasted as "1/3" and therefore evaluated in floating point by the generated code
+  exact = tname not in ("float", "fraction")
+  ok = len(got) == len(y) and all((g == e) if exact else abs(g - e) <= 1e-12 * (1 + abs(e)) for g, e in zip(got, y))
+  if not ok:
+    return bad("filter:coefficient-type", "output differs from the difference equation evaluated with the same "
+               "%s coefficients" % tname, [str(v) for v in y[:6]], [str(v) for v in got[:6]], True)
+  return R(None, True, (tname, shape))
+
+
 KINDS = OrderedDict([
   ("full", Kind(gen_full, run_filter, chunk=400,
                 rule="all coefficient vectors up to the length bound; symbolic input, zero and memory")),
   ("variants", Kind(gen_variants, run_filter, chunk=400,
                     rule="sub-alphabet x constructor x memory kind x zero kind x input length")),
+  ("coef-types", Kind(gen_coef_types, run_coef_types, chunk=10,
+                      rule="coefficient number type (complex, large int, Fraction, negative, float, bool) x filter shape x constructor x zero value, concrete integer input")),
   ("noncausal", Kind(gen_noncausal, run_noncausal, chunk=50,
                      rule="filters with a negative delay (direct or by normalisation) x input lengths")),
 ])
